@@ -3,6 +3,7 @@
 Everything here is built on engine.Fn facts; nothing looks at source text, line
 numbers or block numbers.
 """
+import json
 import re
 
 from .lib import PLUMBING, callee_allow, operand_local, try_edges
@@ -27,10 +28,14 @@ def _elem(e):
 
 class Path:
     """Result of access_path: where a value lives, seen from a root."""
-    __slots__ = ("root", "path", "calls", "fn")
+    __slots__ = ("root", "path", "calls", "fn", "hops")
 
     def __init__(self, fn, root, path, calls):
         self.fn, self.root, self.path, self.calls = fn, root, path, calls
+        self.hops = []
+
+    def npath(self):
+        return norm_path(self.path)
 
     def kind(self):
         return self.root[0]
@@ -159,6 +164,140 @@ def access_path(fn, x, transparent=(), depth=64):
     if root is None:
         root = ("local", l)
     return Path(fn, root, [_elem(e) for e in proj if e != "*"], calls)
+
+
+# variant projections that denote "the payload of the successful case" / "of the failing case": `x?` reads
+# `(branch(x) as Continue).0`, `match x { Ok(v) => .. }` reads `(x as Ok).0`, `ok_or_else(o)?` reads the Some payload of o
+SUCC = ("as Some", "as Ok", "as Continue")
+FAIL = ("as None", "as Err", "as Break")
+
+
+def norm_path(path):
+    """Access-path elements with the success / failure variants of Option, Result and ControlFlow identified
+    ("+" / "-"), so that `x?`, `match x {Ok(v) ..}`, `if let Ok(v) = x`, let-else read the same path."""
+    return ["+" if p in SUCC else "-" if p in FAIL else p for p in path]
+
+
+def payload_is(p, *suffix):
+    """Path p is <root>.<success payload>.0.<suffix..> (root compared by the caller)."""
+    return norm_path(p.path) == ["+", "0"] + list(suffix)
+
+
+def sources(fn, x, transparent=(), stop=(), via=None, limit=200):
+    """Every value an operand / place may hold, as a list of Paths.
+
+    Like access_path, but a local with several whole-local definitions (a `let x = match ..` result, an
+    or-pattern binding, a value returned from several `return`s of an inlined helper) is followed through each
+    of its definitions instead of stopping there.  Projecting the success payload out of `Some(v)` / `Ok(v)`
+    built in the function yields v; out of `None` / `Err(..)` it yields nothing (that definition cannot be
+    the one read).  Locals in `stop` (loop-carried cursors) are never expanded.  `via`: only definitions
+    that can reach the use through block `via` are followed (those reachable from it, or from which it is reachable).
+    Each Path has .hops = [(local, def_bb)] of the multi-definition locals it went through."""
+    rxs = [re.compile(p) for p in (list(transparent) or [])]
+    if "k" in x:
+        if x["k"] == "const":
+            p = Path(fn, ("const", None, x), [], [])
+            p.hops = []
+            return [p]
+        pl = x["pl"]
+    else:
+        pl = x
+    defs = fn.defs()
+    out = []
+    seen = set()
+    reach_via = fn.reachable(via) if via is not None else None
+    work = [(pl["l"], list(pl["p"]), [], [])]
+    n = 0
+    while work:
+        l, proj, calls, hops = work.pop()
+        n += 1
+        if n > limit:
+            p = Path(fn, ("local", l), [_elem(e) for e in proj if e != "*"], calls)
+            p.hops = hops
+            out.append(p)
+            continue
+        key = (l, json.dumps(proj, sort_keys=True))
+        if key in seen:
+            continue
+        seen.add(key)
+        root = None
+        if 1 <= l <= fn.argc:
+            root = ("param", l)
+        else:
+            ds = defs.get(l, [])
+            whole = all((k == "assign" and not nd["pl"]["p"]) or (k == "call" and not nd["dest"]["p"]) for _, k, nd in ds)
+            if not ds or l in stop or not whole:
+                root = ("local", l)
+            else:
+                cand = ds
+                if len(ds) > 1 and via is not None:
+                    cand = [d for d in ds if d[0] in reach_via or via in fn.reachable(d[0])]
+                multi = len(ds) > 1
+                for bb, kind, node in cand:
+                    h2 = hops + [(l, bb)] if multi else hops
+                    r = _follow(fn, l, proj, kind, node, bb, rxs)
+                    if r is None:
+                        continue            # infeasible: payload of a failure aggregate
+                    if r[0] == "cont":
+                        _, l2, proj2, call = r
+                        work.append((l2, proj2, calls + ([call] if call else []), h2))
+                    else:
+                        _, rt, proj2 = r
+                        p = Path(fn, rt, [_elem(e) for e in proj2 if e != "*"], calls)
+                        p.hops = h2
+                        out.append(p)
+                continue
+        p = Path(fn, root, [_elem(e) for e in proj if e != "*"], calls)
+        p.hops = hops
+        out.append(p)
+    return out
+
+
+def _follow(fn, l, proj, kind, node, bb, rxs):
+    """One backward step of sources(): ("cont", local, proj, call-or-None) | ("root", root, proj) | None (infeasible)."""
+    if kind == "assign":
+        rv = node["rv"]
+        k = rv["rv"]
+        if k in ("use", "cast"):
+            op = rv["op"]
+            if op.get("k") not in ("copy", "move"):
+                return ("root", ("const", l, op), proj)
+            if k == "cast" and not ("Unsize" in rv.get("kind", "") or "Transmute" in rv.get("kind", "") or "PtrToPtr" in rv.get("kind", "")):
+                return ("root", ("local", l), proj)
+            return ("cont", op["pl"]["l"], list(op["pl"]["p"]) + proj, None)
+        if k in ("ref", "copyderef", "rawptr"):
+            return ("cont", rv["pl"]["l"], list(rv["pl"]["p"]) + proj, None)
+        if k == "agg" and rv.get("agg") in ("tuple", "adt"):
+            fields = [e for e in proj if e != "*"]
+            is_struct = rv.get("agg") == "tuple" or fn.facts.adts.get(rv.get("adt"), {}).get("kind") == "struct"
+            if is_struct and fields and isinstance(fields[0], dict) and "f" in fields[0] and fields[0]["f"] < len(rv["ops"]):
+                op = rv["ops"][fields[0]["f"]]
+                rest = fields[1:]
+                if op.get("k") not in ("copy", "move"):
+                    return ("root", ("const", l, op), rest)
+                return ("cont", op["pl"]["l"], list(op["pl"]["p"]) + rest, None)
+            if not is_struct and fields and isinstance(fields[0], dict) and "dc" in fields[0]:
+                want = _elem(fields[0])
+                have = "as " + str(rv.get("variant"))
+                same = want == have or (want in SUCC and have in SUCC) or (want in FAIL and have in FAIL)
+                if not same:
+                    return None             # a value built as one variant is never read as another
+                if len(fields) > 1 and isinstance(fields[1], dict) and "f" in fields[1] and fields[1]["f"] < len(rv["ops"]):
+                    op = rv["ops"][fields[1]["f"]]
+                    rest = fields[2:]
+                    if op.get("k") not in ("copy", "move"):
+                        return ("root", ("const", l, op), rest)
+                    return ("cont", op["pl"]["l"], list(op["pl"]["p"]) + rest, None)
+            return ("root", ("agg", l, rv), proj)
+        return ("root", ("local", l), proj)
+    if kind == "call":
+        callee = node.get("callee") or ""
+        res = node.get("resolved") or ""
+        if callee and any(r.search(callee) or (res and r.search(res)) for r in rxs) and node["args"] and node["args"][0].get("k") in ("copy", "move"):
+            a = node["args"][0]["pl"]
+            return ("cont", a["l"], list(a["p"]) + proj, (callee, bb))
+        return ("root", ("call", l, callee or "<indirect>", bb, node), proj)
+    return ("root", ("local", l), proj)
 
 
 def enum_switches(fn, adt_pattern):
